@@ -120,3 +120,12 @@ Definition run_ppid_map (es : list kentry) : jv :=
        (if forallb wf_kentry es then JL [ jval (jpmap (spec_ppid_map es)); jval (jzs (spec_pids es)) ] else jnone) ].
 Definition run_ppid_map_raw (listing : list (bytes * tfile)) : jv :=
   JL [ JL [ jv_outcome jpmap (ppid_map listing); jval (jzs (pids (map fst listing))) ] ].
+
+(* name() as a str (code points) under the file-system encoding of the interpreter *)
+Definition jstr (s : list Z) : jv := JC "Str" [JL (map JZ s)].
+Definition run_name_enc (e : fsenc) (r : kstat) : jv :=
+  JL [ JB (k_stat r);
+       jv_outcome jstr (front (k_stat r) (name_str e (k_stat r)));
+       (if wf_kstat r && wf_bytes (k_comm r)
+        then JL [ jval (jstr (fs_decode e (k_comm r))); jopt JB (fs_encode e (fs_decode e (k_comm r))) ]
+        else jnone) ].
